@@ -475,6 +475,21 @@ func c20replay2(r *Run, w []string) bool {
 			}
 		}
 		c20anchor(r, refs, unhx(w[2]))
+	case "colrng":
+		c20colrng(r, unhx(w[1]))
+	case "colw":
+		c20colw(r, unhx(w[1]), unhx(w[2]))
+	case "pathsm":
+		var ms [][4]int
+		if w[1] != "none" {
+			for _, h := range strings.Split(w[1], ",") {
+				q, err := xl.VerifRangeRefToCoordinates(unhx(h))
+				if err == nil {
+					ms = append(ms, [4]int{q[0], q[1], q[2], q[3]})
+				}
+			}
+		}
+		c20pathsm(r, ms, unhx(w[2]))
 	default:
 		return false
 	}
